@@ -76,6 +76,8 @@ type World struct {
 	refuse  map[string]bool     // itx ids the application refuses
 	tsBase  int64
 	faults  bool // wrap stores in a FaultStore
+	itxSeen map[string]bool
+	sigMemo map[string]string
 	out     *bufio.Writer
 	outF    *os.File
 	traceNo int
@@ -96,6 +98,7 @@ func NewWorld(seed int64, n int) *World {
 		itxIDs:  map[string]*ItxInfo{},
 		refuse:  map[string]bool{},
 		bodies:  map[int][][]byte{},
+		sigMemo: map[string]string{},
 	}
 	for i := 0; i < n; i++ {
 		w.AddPart()
